@@ -255,7 +255,7 @@ def tlc(module, cfg=None, cwd=None, workers="auto", timeout=600, simulate=None, 
                               or "Finished in" in r.out and "Error" not in r.out):
         r.status = "ok"
         return r
-    raise InfraError("TLC failed (rc=%d): %s\n%s" % (p.returncode, r.cmd, r.out[-2500:]))
+    raise InfraError("TLC failed (rc=%d): %s\n%s" % (p.returncode, r.cmd, '\n'.join(x for x in r.out.splitlines() if not x.startswith(('Parsing file','Semantic processing','Linting')))[-1200:]))
 
 
 def write_ndjson(path, rows):
